@@ -15,7 +15,7 @@ func wAlphabet(bs int, optsA, optsB WOpts) []WOp {
 		{Op: "write", N: bs},
 		{Op: "write", N: bs + 1000},
 		{Op: "readfrom", N: 300, Frag: &Frag{Policy: "small", Seed: 5}},
-		{Op: "readfrom", N: 2*bs + 5, Frag: &Frag{Policy: "rand", Seed: 7}},
+		{Op: "readfrom", N: 2*bs + 5, Frag: &Frag{Policy: "rand", Seed: 7}, Bufio: 4096},
 		{Op: "flush"},
 		{Op: "close"},
 		{Op: "reset"},
@@ -98,6 +98,7 @@ func (g *gen) lifecycleW(p *Plan, code, L, conc int) {
 			if op.Op == "readfrom" {
 				op.N = g.r.PickInt(0, 1, 300, bs, bs+1, 2*bs+5)
 				op.Frag = ptrFrag(g.fragFor(op.N))
+				op.Bufio = g.r.PickInt(0, 0, 16, 4096)
 			}
 		}
 		if op.Op == "reset" {
